@@ -162,6 +162,8 @@ pub mod utils;
 
 mod common;
 mod deadline_support;
+#[cfg(similar_verif)]
+pub mod verif_hooks;
 #[cfg(feature = "text")]
 mod text;
 mod types;
